@@ -224,7 +224,7 @@ class SymmetricTTNDO(TreeTensorNetworkState):
 
         """
         if len(operator) == 0:
-            return self.scalar_product()
+            return self.trace()
         # Can be improved once shallow copying is possible
         ttn = deepcopy(self)
         for node_id, single_site_operator in operator.items():
